@@ -229,6 +229,35 @@ def run(chk):
     if getattr(p_bhmf, "age", None) is not None:
         chk.fail("the population reports the age at which the lightest BH progenitor (+0.1 Msun) leaves the main sequence",
                  dict(note="population built directly from a BH mass function has no formation age"), dict(age=float(p_bhmf.age)))
+    # populations that differ ONLY in the parameters of an analytic IFMR (same metallicity, same method names), built one after the other:
+    # each agrees with the full model given the same options
+    opt_sets = [("linear", dict(m_lower=19, slope=0.4, scale=0.7)), ("linear", dict(m_lower=25, slope=0.25, scale=2.0)),
+                ("powerlaw", dict(exponent=2, slope=1e-3, scale=10, m_lower=19)), ("linear", dict(m_lower=rng.choice([19, 22, 30]), slope=rng.choice([0.3, 0.5]), scale=1.0))]
+    rng.shuffle(opt_sets)
+    feh_o = rng.choice([-1.0, -0.5, 0.0])
+    for meth_, okw_ in opt_sets:
+        label = dict(FeH=feh_o, BH_IFMR_method=meth_, BH_IFMR_kwargs=okw_, note="built after other populations with the same method names")
+        with warnings.catch_warnings():
+            warnings.simplefilter("ignore")
+            try:
+                po_ = emf.InitialBHPopulation.from_IMF(imf_s, [3, 3, 12], feh_o, natal_kicks=False, BH_IFMR_method=meth_, BH_IFMR_kwargs=dict(okw_))
+                fu_ = emf.EvolvedMF(imf_s, [3, 3, 12], feh_o, [po_.age], 0.0, NS_ret=1.0, BH_ret_int=1.0, BH_ret_dyn=1.0,
+                                    BH_IFMR_method=meth_, BH_IFMR_kwargs=dict(okw_))
+            except Exception as e:  # noqa
+                chk.notes.append("IFMR-option population raised %s for %s" % (type(e).__name__, okw_))
+                continue
+        chk.count("populations differing only in analytic-IFMR parameters compared with the full model")
+        chk.note_distinct(label)
+        fb_ = fu_.massbins.bins.BH
+        if len(po_.N) != len(fu_.Nr.BH[0]) or not np.array_equal(np.asarray(po_.bins.lower), np.asarray(fb_.lower)):
+            chk.fail("BH number and mass per bin equal those of the full model evolved to the same age with full retention", label,
+                     dict(first_BH_edge=float(np.asarray(po_.bins.lower)[0]), full_model_first_BH_edge=float(np.asarray(fb_.lower)[0])))
+            continue
+        dN_ = np.abs(po_.N - fu_.Nr.BH[0])
+        dM_ = np.abs(po_.M - fu_.Mr.BH[0])
+        if np.any(dN_ > 2e-3 * max(float(fu_.Nr.BH[0].sum()), 1.0) + 0.2) or np.any(dM_ > 2e-3 * max(float(fu_.Mr.BH[0].sum()), 1.0) + 5.0):
+            chk.fail("BH number and mass per bin equal those of the full model evolved to the same age with full retention", label,
+                     dict(max_dN=float(dN_.max()), N_short=float(po_.N.sum()), N_full=float(fu_.Nr.BH[0].sum()), age=float(po_.age)))
     chk.correspondence("bh_field (1e-9) vs the captured nested _derivs_BHs on arbitrary (t, y)", ncase, dis)
     # ---- from_BHMF ------------------------------------------------------------------------------------
     for _ in range(8 if chk.tier == "quick" else 60):
